@@ -8,6 +8,7 @@ from collections import defaultdict
 import errno
 import io
 import locale
+import math
 import os
 import re
 from subprocess import check_output, CalledProcessError
@@ -150,7 +151,10 @@ def json_equal(x, y):
     ``True == 1 == 1.0``), as they are different values once serialized.
     """
     if isinstance(x, _json_number_types) or isinstance(y, _json_number_types):
-        return type(x) is type(y) and x == y
+        if type(x) is not type(y) or x != y:
+            return False
+        # 0.0 and -0.0 compare equal but serialize differently
+        return x != 0 or not isinstance(x, float) or math.copysign(1.0, x) == math.copysign(1.0, y)
     if x != y:
         return False
     # Equal according to python, check that nested values agree on number types
